@@ -114,6 +114,29 @@ def unfoldSelfAfter (S : Spec) : Spec :=
     data := tabulate S.N fun k => unfold_selfDataAfter (mirrorFlat S.N) (totalFlat S.shape) (totalSamples S.shape) S.x S.m k
     mask := tabulate S.N fun k => unfold_selfMaskAfter (mirrorFlat S.N) (totalFlat S.shape) (totalSamples S.shape) S.x S.m k }
 
+/-! ### the constructor `Spectrum.__new__` on a plain array
+
+Between building the masked array and `if mask_corners: subarr.mask_corners()` the constructor runs its `if data_folded:` block.
+What that block does to data and mask of the array under construction is generated (`ctor_selfDataAfter`, `ctor_selfMaskAfter`,
+translated statement by statement; on the source as it is the block only warns).  Every binary operator builds its result through
+this constructor with `data_folded = self.folded`, for spectra of every shape — whole ones and slices alike. -/
+
+/-- mask of the array under construction at flat index `k`, when the `data_folded` block is left -/
+def ctorMask (shape : List Nat) (dataFolded : Bool) (x : Nat → Rat) (m : Nat → Bool) (k : Nat) : Bool :=
+  if dataFolded then ctor_selfMaskAfter (mirrorFlat (prodL shape)) (totalFlat shape) (totalSamples shape) x m k else m k
+
+/-- data of the array under construction at flat index `k`, when the `data_folded` block is left -/
+def ctorData (shape : List Nat) (dataFolded : Bool) (x : Nat → Rat) (m : Nat → Bool) (k : Nat) : Rat :=
+  if dataFolded then ctor_selfDataAfter (mirrorFlat (prodL shape)) (totalFlat shape) (totalSamples shape) x m k else x k
+
+/-- `Spectrum(data, mask=mask, mask_corners=mc, data_folded=S.folded, pop_ids=S.popIds)` for plain `data`, `mask` -/
+def ctorSpec (S : Spec) (mc : Bool) : Spec :=
+  { shape := S.shape
+    data := tabulate S.N fun k => ctorData S.shape S.folded S.x S.m k
+    mask := tabulate S.N fun k => ctorMask S.shape S.folded S.x S.m k || (mc && cornerFlat S.N k)
+    folded := S.folded
+    popIds := S.popIds }
+
 /-! ### arithmetic templates -/
 
 inductive Operand where
@@ -301,7 +324,9 @@ def binop (name : String) (S : Spec) (o : Operand) : Res :=
     | some d, some mk =>
       .ok { shape := S.shape
             data := d
-            mask := tabulate S.N fun k => mk.getD k false || (binopMaskCorners && cornerFlat S.N k)
+            mask := tabulate S.N fun k =>
+              ctorMask S.shape (binopFolded S.folded o.folded) (fun j => d.getD j 0) (fun j => mk.getD j false) k
+                || (binopMaskCorners && cornerFlat S.N k)
             folded := binopFolded S.folded o.folded
             popIds := if o.isSpectrum then binopPopIds S.popIds o.popIds else S.popIds }
     | _, _ => .undefined "template"
